@@ -3315,9 +3315,9 @@ class C19(Prop):
         # (oversized parser tables and pooled buffers are what a library may decide to rebuild or trim), then ordinary calls
         # with and without a Config
         bigdoc = ('a', [('n', float(k)) for k in range(1500)])
-        for i in range(max(6, n // 150)):
+        for i in range(max(14, n // 80)):
             ops = []
-            if r.random() < 0.6:
+            if r.random() < 0.7:
                 long_path = b'$' + r.choice([b'.a', b'[0]', b'.*']) * r.choice([1000, 1400])
                 ops.append((dict(op='retrieve', path_hex=hx(long_path), doc=core.doc_go(doc), mutate=False, filters=[], aggs=[], acc=False, nocfg=True), doc))
             else:
